@@ -203,6 +203,61 @@ theorem VReach.specP {big eps2 : α} (P : α → Prop) (L : List (Fix α))
     · rw [r3, vwBody_map_fst, head?_eraseIdx_pos _ _ h0]
     · rw [r4, vwBody_map_fst, getLast?_eraseIdx_interior _ _ (by rw [List.length_map]; exact h1)]
 
+/-! ### the `Track` object on columns without NaN -/
+
+/-- one pass with the index it removes (the form `vwStep_spec` has under T6's strict hypothesis) -/
+theorem vwStep_specP (big eps2 : α) (P : α → Prop) (L : List (Fix α))
+    (hP : ∀ a b c, a ∈ L → b ∈ L → c ∈ L → P (areaFix a b c)) (hPb : ∀ v, P v → v < big ∨ (v == big) = true)
+    (S S' : VState α) (h : VInvP P L S) (hs : vwStep big eps2 S = some S') :
+    VInvP P L S' ∧ ∃ id, 0 < id ∧ id + 1 < S.length ∧ S'.map (·.1) = (S.map (·.1)).eraseIdx id ∧
+      id = argmin big (S.map (·.2)) := by
+  obtain ⟨hv, hh⟩ := vwStep_P big eps2 P L hP hPb S S' h hs
+  obtain ⟨_, _, _, id, h1, hm, eid⟩ := vwStep_any big eps2 S S' h.last hs
+  exact ⟨hv, id, by rw [eid]; exact hit_argmin_pos big S h.first hh, h1, hm, eid⟩
+
+/-- the rows of the `Track`-level loop keep their first and last observation on a column without NaN -/
+theorem vwLoopT_endsP (big eps2 : α) (k : Nat) (P : α → Prop) (L : List (Fix α))
+    (hP : ∀ a b c, a ∈ L → b ∈ L → c ∈ L → P (areaFix a b c)) (hPb : ∀ v, P v → v < big ∨ (v == big) = true) (fuel : Nat) :
+    ∀ S : List (Ob α), HasK k S → VInvP P L (absK k S) →
+      (restK k (vwLoopT big eps2 k fuel S)).head? = (restK k S).head? ∧
+      (restK k (vwLoopT big eps2 k fuel S)).getLast? = (restK k S).getLast? := by
+  induction fuel with
+  | zero => intro S _ _; exact ⟨rfl, rfl⟩
+  | succ fuel ih =>
+    intro S hk hv
+    obtain ⟨hc, hr⟩ := vwStepT_spec big eps2 k S hk
+    rw [vwLoopT]
+    cases hs : vwStepT big eps2 k S with
+    | none => exact ⟨rfl, rfl⟩
+    | some S' =>
+      obtain ⟨hk', hr'⟩ := hr S' hs
+      rw [hs] at hc
+      obtain ⟨hv', id, h0, h1, _, eid⟩ := vwStep_specP big eps2 P L hP hPb (absK k S) (absK k S') hv hc.symm
+      obtain ⟨i1, i2⟩ := ih S' hk' hv'
+      rw [← eid] at hr'
+      rw [absK_length] at h1
+      have hlen : (restK k S).length = S.length := by simp [restK]
+      refine ⟨?_, ?_⟩
+      · rw [i1, hr', head?_eraseIdx_pos _ _ h0]
+      · rw [i2, hr', getLast?_eraseIdx_interior _ _ (by omega)]
+
+/-- Visvalingam on the `Track`: when no triangle area of the track is NaN the first and the last **observation** are kept -/
+theorem vwTrk_ends_no_nan (big eps : α) (T O : Trk α) (hf : FreshTable T) (h2 : 2 ≤ T.pts.length)
+    (hnum : ∀ a b c, a ∈ fixes T.pts → b ∈ fixes T.pts → c ∈ fixes T.pts →
+      areaFix a b c < big ∨ (areaFix a b c == big) = true)
+    (h : vwTrk big eps T = .ok O) :
+    O.pts.head? = T.pts.head? ∧ O.pts.getLast? = T.pts.getLast? := by
+  have hne : T.pts ≠ [] := by intro e; rw [e] at h2; simp at h2
+  rw [vwTrk_fresh big eps T hf hne] at h
+  cases h
+  have hv : VInvP (fun v => v < big ∨ (v == big) = true) (fixes T.pts) (absK T.dico.length (initRows T.pts)) := by
+    rw [initRows_abs _ _ hf.rows]
+    exact vwInit_invP _ (fixes T.pts) hnum (by simpa [fixes] using h2)
+  have := vwLoopT_endsP big (eps * eps) T.dico.length _ (fixes T.pts) hnum (fun _ h => h) T.pts.length (initRows T.pts)
+    (initRows_has _ _ hf.rows) hv
+  rw [initRows_rest _ _ hf.rows] at this
+  exact this
+
 /-! ### a column of NaN only: the whole run -/
 
 /-- what is known of a state when no triangle area of the track is found by ARGMIN nor triggers the `break`: the observations are the
